@@ -60,6 +60,11 @@ type TPS struct {
 }
 
 func (tps *TPS) SetShareData(shareData []byte) error {
+	// Messages may already be dispatched to this instance (the orchestrator registers the session's handlers
+	// before it loads the share data), and OnMsg works on the same tables.
+	tps.lock.Lock()
+	defer tps.lock.Unlock()
+
 	tps.storedData = &StoredData{}
 	if _, err := asn1.Unmarshal(shareData, tps.storedData); err != nil {
 		return fmt.Errorf("share data is malformed: %v", err)
